@@ -295,7 +295,7 @@ EXPORT void cplx_fftvec_twiddle_avx512(const CPLX_FFTVEC_TWIDDLE_PRECOMP* precom
 /*
 BEGIN_TEMPLATE
 const __m512d bri% = _mm512_loadu_pd(bb[%]);
-const __m512d bir% = _mm512_shuffle_pd(bri%,bri%,0b10011001);
+const __m512d bir% = _mm512_shuffle_pd(bri%,bri%,0b01010101);
 __m512d p% = _mm512_mul_pd(bir%,omii);
 p% = _mm512_fmaddsub_pd(bri%,omrr,p%);
 const __m512d ari% = _mm512_loadu_pd(aa[%]);
@@ -310,10 +310,10 @@ const __m512d bri0 = _mm512_loadu_pd(bb[0]);
 const __m512d bri1 = _mm512_loadu_pd(bb[1]);
 const __m512d bri2 = _mm512_loadu_pd(bb[2]);
 const __m512d bri3 = _mm512_loadu_pd(bb[3]);
-const __m512d bir0 = _mm512_shuffle_pd(bri0,bri0,0b10011001);
-const __m512d bir1 = _mm512_shuffle_pd(bri1,bri1,0b10011001);
-const __m512d bir2 = _mm512_shuffle_pd(bri2,bri2,0b10011001);
-const __m512d bir3 = _mm512_shuffle_pd(bri3,bri3,0b10011001);
+const __m512d bir0 = _mm512_shuffle_pd(bri0,bri0,0b01010101);
+const __m512d bir1 = _mm512_shuffle_pd(bri1,bri1,0b01010101);
+const __m512d bir2 = _mm512_shuffle_pd(bri2,bri2,0b01010101);
+const __m512d bir3 = _mm512_shuffle_pd(bri3,bri3,0b01010101);
 __m512d p0 = _mm512_mul_pd(bir0,omii);
 __m512d p1 = _mm512_mul_pd(bir1,omii);
 __m512d p2 = _mm512_mul_pd(bir2,omii);
